@@ -1,7 +1,7 @@
 (* C12 — Checkpoints restore to exactly the checkpointed state.
    Only statements; proofs are in Ckpt/*.v.  Model: Ckpt/Model.v. *)
 From Verif Require Import Lib.Base Mkvs.Trie Mkvs.TrieProofs Mkvs.HashProofs
-  Ckpt.Model Ckpt.Proofs Ckpt.ParProofs Ckpt.RestoreProofs Ckpt.Examples Ckpt.Main Ckpt.Stack Ckpt.StackProofs Ckpt.EstProofs Ckpt.StackSim Ckpt.Frame Gen.CkptConsts.
+  Ckpt.Model Ckpt.Proofs Ckpt.ParProofs Ckpt.RestoreProofs Ckpt.Examples Ckpt.Main Ckpt.Stack Ckpt.StackProofs Ckpt.EstProofs Ckpt.StackSim Ckpt.Frame Ckpt.Files Gen.CkptConsts.
 From Coq Require Import Permutation.
 
 (* sequential chunker: the key runs visited by the chunks, concatenated, are
@@ -327,3 +327,24 @@ Theorem entry_sizes_are_costs : forall lbl lf k v,
   N.of_nat (length (1 :: node_bin lbl lf)) = node_cost lbl lf.
 Proof. exact Main.entry_sizes_are_costs_l. Qed.
 Print Assumptions entry_sizes_are_costs.
+
+(* ---- chunk files in a directory that is not empty ---- *)
+(* the files of a checkpoint directory as a map index -> bytes; the creator
+   opens every chunk file with create-or-truncate (file.go:236 os.Create).
+   Whatever the directory held before (leftovers of an interrupted creation or
+   deletion for the same root, with other chunk sizes / thread counts, longer
+   or shorter files): what GetCheckpointChunk serves for an index is exactly
+   what the creator wrote for it *)
+Theorem served_chunk_is_written_chunk : forall files fs0 i0 k,
+  (k < length files)%nat ->
+  serve (write_chunks fcreate i0 files fs0) (i0 + N.of_nat k) = nth_error files k.
+Proof. exact served_is_written_l. Qed.
+Print Assumptions served_chunk_is_written_chunk.
+
+(* with overwrite-in-place (no truncation) the statement is false: a stale
+   longer file keeps its tail *)
+Theorem served_chunk_is_written_chunk_without_truncate_refuted :
+  exists fs0 files k, (k < length files)%nat /\
+    serve (write_chunks foverwrite 0 files fs0) (N.of_nat k) <> nth_error files k.
+Proof. exact overwrite_in_place_refuted. Qed.
+Print Assumptions served_chunk_is_written_chunk_without_truncate_refuted.
